@@ -9,6 +9,8 @@ CONSTANTS
   RlSizes = {0, 1, 2}
   SeekMax = 3
   Ops = TRUE
+  Hints = {}
+  IterSingleLine = TRUE
   Emit = TRUE
 SPECIFICATION RSpec
 INVARIANT RTypeOK
